@@ -132,7 +132,12 @@ func ourLocks(path string) []hx.ProcLock {
 	return out
 }
 
-func sqlRows(sq *gosql.DB, ctx context.Context, q string) ([]hx.Row, []string, error) {
+// queryer is what *sql.DB, *sql.Tx and *sql.Conn have in common.
+type queryer interface {
+	QueryContext(ctx context.Context, query string, args ...interface{}) (*gosql.Rows, error)
+}
+
+func sqlRows(sq queryer, ctx context.Context, q string) ([]hx.Row, []string, error) {
 	rs, err := sq.QueryContext(ctx, q)
 	if err != nil {
 		return nil, nil, err
@@ -245,6 +250,49 @@ func C19(run *hx.Run) {
 					} else {
 						run.Count("rows_compared", len(got))
 					}
+				}
+			}
+		}
+		// nested result sets on ONE transaction / connection: while an outer result set is open the consumer
+		// runs further queries (each must return what it returns alone), then finishes the outer one
+		if wantA, errA, _ := collectSelect(db, "t_alias", []string{"id", "v"}); errA == nil {
+			if wantP, errP, _ := collectSelect(db, "t_plain", []string{"a"}); errP == nil && len(wantP) > 3 {
+				ctx := context.Background()
+				nested := func(kind string, q queryer, done func()) {
+					defer done()
+					outer, err := q.QueryContext(ctx, "SELECT a FROM t_plain")
+					if err != nil {
+						run.Violation("C19/nested/"+kind+"/outer", "outer query failed: "+err.Error(), nil)
+						return
+					}
+					defer outer.Close()
+					n := 0
+					for outer.Next() {
+						n++
+						if n <= 3 {
+							got, _, err := sqlRows(q, ctx, "SELECT id, v FROM t_alias")
+							run.Eval(1)
+							if err != nil {
+								run.Violation("C19/nested/"+kind+"/inner-error", fmt.Sprintf("a second query on the same %s while a result set is open fails: %v (the native Select works)", kind, err), nil)
+								return
+							}
+							if df := diffRows(wantA, got); df != "" {
+								run.Violation("C19/nested/"+kind+"/inner-rows", fmt.Sprintf("a second query on the same %s while a result set is open: %s", kind, df), nil)
+								return
+							}
+						}
+					}
+					if err := outer.Err(); err != nil || n != len(wantP) {
+						run.Violation("C19/nested/"+kind+"/outer-rows", fmt.Sprintf("the outer result set on a %s delivered %d of %d rows (err=%v) after inner queries ran", kind, n, len(wantP), err), nil)
+						return
+					}
+					run.See("nested_result_sets", kind)
+				}
+				if tx, err := sq.BeginTx(ctx, nil); err == nil {
+					nested("sql.Tx", tx, func() { tx.Rollback() })
+				}
+				if conn, err := sq.Conn(ctx); err == nil {
+					nested("sql.Conn", conn, func() { conn.Close() })
 				}
 			}
 		}
